@@ -77,3 +77,66 @@ def run(chk, F, tier):
         chk.check(ok, "R41b", nm + ":loop-label", "%s does not hand its loop label to the body binder as continue target" % nm, b.loc(),
                   sample={"rule": "R41b", "binder": nm, "verdict": "loop label passed"})
     chk.explanation = "Return-value provenance of every loop binder on the paths that pass the body binder."
+
+    # ---- R41c: when a loop is treated as certainly entered, its end-of-body flow is always merged into the exit label --------
+    chk.rule("R41c", "finish_entered_loop_post_flow adds the end-of-body flow to the post-loop label on every path (a numeric for also leaves "
+                     "by normal completion, so the merge may not depend on whether a break reached the label)")
+    ST = "emmylua_code_analysis::compilation::analyzer::flow::bind_analyze::stats::"
+    fin = F.bodies.get(ST + "finish_entered_loop_post_flow")
+    if fin is None:
+        raise RuleBroken("finish_entered_loop_post_flow not found")
+    adds = set()
+    for bb, c in fin.calls():
+        if name(c).endswith("FlowBinder::add_antecedent") and len(c["a"]) >= 3:
+            la, lb = dataflow.operand_local(c["a"][1]), dataflow.operand_local(c["a"][2])
+            ra = dataflow.roots(fin, la) if la is not None else set()
+            rb = dataflow.roots(fin, lb) if lb is not None else set()
+            if ("arg", 2) in ra and ("arg", 3) in rb:
+                adds.add(bb)
+    p = cfgutil.paths_avoiding(fin.succ_map(), 0, set(fin.returns()), adds) if adds else [0]
+    chk.check(bool(adds) and p is None, "R41c", "merge-body-end",
+              "finish_entered_loop_post_flow can return without add_antecedent(after_loop_label, block_flow): assignments live at the end of the body "
+              "of a statically entered numeric for are lost after the loop (the variable keeps its pre-loop type)", fin.loc(),
+              witness={"path_blocks": p}, sample={"rule": "R41c", "verdict": "merged on every path"})
+
+    # ---- R41d: "cannot tell statically" never turns into "enters" ----------------------------------------------------------------
+    chk.rule("R41d", "an unknown static value (static_number_value / static_literal_truthiness returned None) is never replaced by a default: "
+                     "their results are only pattern-matched, not passed to unwrap_or / map_or / unwrap_or_default")
+    STATIC = (ST + "static_number_value", ST + "static_literal_truthiness")
+    nuse = 0
+    for b in F.bodies.values():
+        if not b.id.startswith(ST):
+            continue
+        # locals holding a result of the static evaluators (directly, or through and_then/map/filter with the fn item)
+        tainted = set()
+        for bb, c in b.calls():
+            n = name(c)
+            direct = n in STATIC
+            via = n.endswith(("Option::<T>::and_then", "Option::<T>::map", "Iterator::map", "Iterator::filter_map")) and \
+                any(a[0] == "k" and a[1] == "fn" and (a[2] in STATIC or (len(a) > 4 and a[4] in STATIC)) for a in c["a"])
+            if (direct or via) and len(c["d"]) == 1:
+                tainted.add(c["d"][0])
+                nuse += 1
+        changed = True
+        while changed:
+            changed = False
+            for blk in b.blocks:
+                for st in blk[1]:
+                    if st[0] == "a" and len(st[1]) == 1 and st[1][0] not in tainted and st[2][0] in ("use", "ref"):
+                        srcp = st[2][2] if st[2][0] == "ref" else (st[2][1][1] if st[2][1][0] in ("c", "m") else None)
+                        if srcp and len(srcp) == 1 and srcp[0] in tainted:
+                            tainted.add(st[1][0])
+                            changed = True
+        for bb, c in b.calls():
+            n = name(c)
+            if n.endswith(("::unwrap_or", "::unwrap_or_default", "::unwrap_or_else", "::map_or", "::map_or_else", "::is_some_and", "::is_none_or")) and \
+                    c["a"] and c["a"][0][0] in ("c", "m") and c["a"][0][1][0] in tainted:
+                if n.endswith(("::is_some_and",)):
+                    continue      # None stays false: not a default
+                chk.violation("R41d", "defaulted-static@%s" % b.id.split("::")[-1],
+                              "%s replaces an unknown static value by a default (%s): an expression the binder cannot evaluate (a variable or `-1` "
+                              "as the step) is then treated like the default literal and the loop counts as statically entered"
+                              % (b.id.split("::")[-1], n.split("::")[-1]), b.loc(c["l"]))
+    chk.floor("uses of the static evaluators in the loop binders", nuse, 5)
+    if True:
+        chk.ok("R41d", "static-values-only-matched", {"rule": "R41d", "verdict": "results of the static evaluators are only pattern-matched", "uses": nuse})
